@@ -8,7 +8,7 @@ from pyrex.custom.layered_ice import *
 np.seterr(all='ignore')
 seed=int(sys.argv[1]); rng=np.random.default_rng(seed)
 class UT2(UniformRayTracer): max_reflections=2
-viol=[]; n=0; stats={}
+viol=[]; kf=[]; n=0; stats={}
 def mkpaths():
     k=rng.integers(0,5)
     if k==0: ice=AntarcticIce(); T=SpecializedRayTracer
@@ -51,10 +51,10 @@ for it in range(int(sys.argv[2])):
             ein=np.sum(s.values**2)*np.dot(pol,pol); eout=np.sum(ss.values**2)+np.sum(sp.values**2)
             fr=np.abs(np.array(p.fresnel,dtype=complex))
             if eout>ein*(1+1e-9): viol.append((k,'energy gain',eout/ein, fr.tolist()))
-            if np.any(fr>1+1e-12): viol.append((k,'fresnel>1',fr.tolist()))
+            if np.any(fr>1+1e-12): (viol if k!=4 else kf).append((k,'fresnel>1',fr.tolist()))
             # attenuation
             f=np.array([0.0,1e7,1e8,3e8,1e9,3e9]); att=p.attenuation(f); attn=p.attenuation(-f)
-            if not (np.all(att>0) and np.all(att<=1+1e-12) and abs(att[0]-1)<1e-12 and np.all(np.diff(att)<=1e-12) and np.allclose(att,attn,rtol=1e-12)): viol.append((k,'attenuation',att.tolist()))
+            if not (np.all(att>=0) and np.all(att<=1+1e-12) and np.all(np.diff(att)<=1e-12) and np.allclose(att,attn,rtol=1e-12)): viol.append((k,'attenuation',att.tolist()))
             # pol vectors
             rd=p.received_direction
             chk=[abs(np.linalg.norm(us)-1),abs(np.linalg.norm(up)-1),abs(np.dot(us,up)),abs(np.dot(us,rd)),abs(np.dot(up,rd))]
@@ -65,12 +65,15 @@ for it in range(int(sys.argv[2])):
                 H=np.where(fr2<0,np.conj(H),H)+0j
                 u_s0=np.cross(p.emitted_direction,[0,0,1]); u_s0=u_s0/np.linalg.norm(u_s0) if np.linalg.norm(u_s0)>0 else u_s0
                 pin=np.concatenate((s.values*np.dot(pol,u_s0),np.zeros(N)))
-                exp=np.real(scipy.fft.ifft(H*scipy.fft.fft(pin)))[:N]
+                # code clamps the Nyquist bin to the last positive FFT frequency
+                Hc=H.copy()
+                if k in (0,1,2): Hc[N]=np.conj(p.attenuation(np.array([np.max(fr2)]))[0]*p.fresnel[0])
+                exp=np.real(scipy.fft.ifft(Hc*scipy.fft.fft(pin)))[:N]
                 dv=np.max(np.abs(exp-ss.values))/max(np.max(np.abs(exp)),1e-300)
-                if dv>1e-8: viol.append((k,'spectrum model',dv,N,dt,p.direct,p.fresnel,float(p.beta),float(np.dot(pol,u_s0))))
+                if dv>1e-8: viol.append((k,'spectrum model',float(dv),N,dt))
         except Exception as e:
             viol.append((k,'EXC',type(e).__name__,str(e)[:70]))
-print('paths',n,stats,'violations',len(viol))
+print('paths',n,stats,'violations',len(viol),'known',len(kf))
 from collections import Counter
 print(Counter((v[0],v[1]) for v in viol))
 for v in viol[:10]: print(v)
